@@ -5,8 +5,7 @@ import "github.com/TheManticoreProject/Manticore/windows/keycredential/key"
 // C15 — key-credential DateTime: ticks since 1601 to Go time, exact for every non-zero tick count a signed FILETIME can hold.
 func H_C15_datetime() {
 	ticks := vU64("ticks")
-	vAssume(ticks != 0) // zero means "now"
-	vAssume(ticks <= 0x7FFFFFFFFFFFFFFF)
+	vAssume(ticks != 0) // zero means "now"; every other 64-bit count, including those with the top bit set, is a tick count
 	dt := NewDateTime(ticks)
 	vCheck(dt.ToTicks() == ticks, "datetime/ticks-kept")
 	wantSec := int64(ticks/10000000) - 11644473600
@@ -21,7 +20,6 @@ func H_C15_datetime() {
 func H_C15_binary_time() {
 	ticks := vU64("ticks")
 	vAssume(ticks != 0)
-	vAssume(ticks <= 0x7FFFFFFFFFFFFFFF)
 	raw := []byte{byte(ticks), byte(ticks >> 8), byte(ticks >> 16), byte(ticks >> 24), byte(ticks >> 32), byte(ticks >> 40), byte(ticks >> 48), byte(ticks >> 56)}
 	versions := [4]uint32{key.KeyCredentialVersion_0, key.KeyCredentialVersion_1, key.KeyCredentialVersion_2, 0x300}
 	ver := key.KeyCredentialVersion{Value: versions[vParam("version")]}
@@ -42,9 +40,10 @@ func H_C15_binary_time() {
 // work linear.
 func H_C15_binary_time_inverse() {
 	q, r := vU64("q"), vU64("r")
-	vAssume(q <= 922337203685 && r < 10000000)
+	vAssume(q <= 1844674407370 && r < 10000000)
+	vAssume(q < 1844674407370 || r <= 9551615) // q * 10^7 + r fits in 64 bits
 	ticks := q*10000000 + r
-	vAssume(ticks != 0 && ticks <= 0x7FFFFFFFFFFFFFFF)
+	vAssume(ticks != 0)
 	versions := [4]uint32{key.KeyCredentialVersion_0, key.KeyCredentialVersion_1, key.KeyCredentialVersion_2, 0x300}
 	ver := key.KeyCredentialVersion{Value: versions[vParam("version")]}
 	src := key.KeySource_AD
